@@ -116,4 +116,35 @@ theorem T19_point_add_direction (x y u v w : K) (hw : w ≠ 0) :
   simp [pointAddSub1, normalizePoint1, hw]
 
 end
+/-- **expand_dims**: in the index sets of the result the new axis is neither covariant nor contravariant (a collection axis),
+    an axis in front of it keeps its number and its type, an axis behind it moves up by one and keeps its type -/
+theorem T19_expand_dims_types (axis : Nat) (l : List Nat) (j : Nat) :
+    j ∈ expandDimsTypes axis l ↔ (j < axis ∧ j ∈ l) ∨ (axis < j ∧ j - 1 ∈ l) := by
+  simp only [expandDimsTypes, List.mem_map]
+  constructor
+  · rintro ⟨i, hi, rfl⟩
+    by_cases h : i ≥ axis
+    · right; simp only [h, if_true]; exact ⟨by omega, by simpa using hi⟩
+    · left; simp only [h, if_false]; exact ⟨by omega, hi⟩
+  · rintro (⟨h1, h2⟩ | ⟨h1, h2⟩)
+    · exact ⟨j, h2, by simp [show ¬ j ≥ axis by omega]⟩
+    · refine ⟨j - 1, h2, ?_⟩
+      have : j - 1 ≥ axis := by omega
+      simp only [this, if_true]; omega
+
+theorem T19_expand_dims_new_axis_free (axis : Nat) (cov con : List Nat) :
+    axis ∉ expandDimsTypes axis cov ∧ axis ∉ expandDimsTypes axis con := by
+  constructor <;> (rw [T19_expand_dims_types]; omega)
+
+/-- distinct index sets stay distinct (no axis becomes both covariant and contravariant) -/
+theorem T19_expand_dims_disjoint (axis : Nat) (cov con : List Nat) (h : ∀ i, i ∈ cov → i ∉ con) :
+    ∀ j, j ∈ expandDimsTypes axis cov → j ∉ expandDimsTypes axis con := by
+  intro j hj hc
+  rw [T19_expand_dims_types] at hj hc
+  rcases hj with ⟨h1, h2⟩ | ⟨h1, h2⟩ <;> rcases hc with ⟨g1, g2⟩ | ⟨g1, g2⟩
+  · exact h j h2 g2
+  · omega
+  · omega
+  · exact h (j - 1) h2 g2
+
 end Geo
